@@ -70,8 +70,11 @@ def matrices(draw, n, m, kind="int", distinct=False):
 
 def shapes(tier, lo=1):
     hi = 6 if tier == "quick" else 10
-    dim = st.one_of(st.integers(lo, hi), st.integers(lo, hi),
-                    st.integers(max(lo, 2), 4), st.integers(lo, max(lo, 2)))
+    big = 13 if tier == "quick" else 24
+    dim = st.sampled_from([0] * 12 + [1] * 12 + [2] * 6 + [3] * 6 + [4]).flatmap(
+        lambda k: [st.integers(lo, hi), st.integers(max(lo, 2), 4),
+                   st.integers(lo, max(lo, 2)), st.just(1),
+                   st.integers(11, big)][k])
     return st.tuples(dim, dim)
 
 
